@@ -53,7 +53,12 @@ func genRepl(ch *simrt.Chooser, thorough bool) []replAct {
 			plan = append(plan, replAct{Kind: "newleader", N: ch.Choose(simrt.SWork, 4), A: 1 + ch.Choose(simrt.SWork, 3)})
 		case k < 17:
 			if ch.Choose(simrt.SWork, 2) == 0 {
-				plan = append(plan, replAct{Kind: "config"})
+				// a membership change; half of the time it reaches the follower uncommitted and the
+				// leader is then replaced by one that does not have it
+				plan = append(plan, replAct{Kind: "commit", N: 1 << 20}, replAct{Kind: "config"})
+				if ch.Choose(simrt.SWork, 2) == 0 {
+					plan = append(plan, replAct{Kind: "ae", N: 8}, replAct{Kind: "ae", N: 8}, replAct{Kind: "newleader", N: ch.Choose(simrt.SWork, 2), A: 1 + ch.Choose(simrt.SWork, 2)}, replAct{Kind: "ae", N: 4})
+				}
 			} else {
 				plan = append(plan, replAct{Kind: "lsnap", N: ch.Choose(simrt.SWork, 4)})
 			}
